@@ -258,6 +258,13 @@ func libFrame(logPath string) string {
 	return string(m[1])
 }
 
+// confirmed crash signatures: a signature that has reproduced in isolation once is not replayed again
+var (
+	confirmedMu  sync.Mutex
+	confirmedSig = map[string]bool{}
+	crashCount   int
+)
+
 type runner struct {
 	prop, tier string
 	seed       int64
@@ -298,6 +305,9 @@ func (r *runner) runShard(variant string, shard, nshards int) childOut {
 		}
 		if variant == "asan" {
 			env = append(env, "ASAN_OPTIONS=detect_leaks=0:abort_on_error=0:halt_on_error=1")
+		}
+		if variant == "plain" || variant == "ckptr" || variant == "cover" {
+			env = append(env, "VERIF_AS_LIMIT_MB=8192")
 		}
 		if variant == "cover" {
 			cd := filepath.Join(r.outDir, "covdata")
@@ -343,9 +353,17 @@ func (r *runner) runShard(variant string, shard, nshards int) childOut {
 			Sig:    fmt.Sprintf("%s|%s|%s|%s", kind, layer, fatalClass(fl), opClass),
 			What:   fmt.Sprintf("child process died (%s, exit %d, %s build) while executing %s:%d op=%q: %s [frame %s]", kind, exit, variant, layer, idx, op, fl, fr),
 			Detail: map[string]any{"exit": exit, "op": op, "log": logPath, "fatal": fl, "frame": fr}}
-		// confirm by isolated replay
+		// confirm by isolated replay (once per signature)
+		confirmedMu.Lock()
+		already := confirmedSig[f.Sig]
+		crashCount++
+		tooMany := crashCount > 60
+		confirmedMu.Unlock()
 		repro := 0
-		for k := 0; k < 2; k++ {
+		if already {
+			repro = 2
+		}
+		for k := 0; k < 2 && !already; k++ {
 			rl := filepath.Join(r.outDir, fmt.Sprintf("%s.replay%d.%d.log", name, attempt, k))
 			rargs := []string{"-prop", r.prop, "-tier", r.tier, "-seed", fmt.Sprint(r.seed), "-build", variant, "-only", fmt.Sprintf("%s:%d", layer, idx)}
 			e, to := runChild(context.Background(), bin, rargs, rl, env, 150*time.Second)
@@ -355,13 +373,17 @@ func (r *runner) runShard(variant string, shard, nshards int) childOut {
 		}
 		if repro == 2 {
 			co.crashes = append(co.crashes, f)
+			confirmedMu.Lock()
+			confirmedSig[f.Sig] = true
+			confirmedMu.Unlock()
 		} else {
 			co.inconcl = append(co.inconcl, fmt.Sprintf("abnormal exit at %s:%d (%s) did not reproduce in isolation (%d/2)", layer, idx, fl, repro))
 		}
 		skip = fmt.Sprintf("%s:%d", layer, idx)
 		// the partial observations of the dead child are lost; the resumed child re-counts from the next case
-		if attempt == 39 {
-			co.inconcl = append(co.inconcl, name+": more than 40 abnormal exits, shard abandoned")
+		if attempt == 39 || tooMany {
+			co.inconcl = append(co.inconcl, name+": too many abnormal exits, shard abandoned (the violations found so far stand)")
+			break
 		}
 	}
 	co.res = merged
